@@ -477,7 +477,7 @@ def exactScalar : FieldDecl → Bool
   | .float o => numOptsOk o && o.sign == .any && o.mult.isNone
   | .string _ _ pat => (match pat with | some p => startAnchored p | none => true)
   | .boolean => true
-  | .enumLit vs => !vs.isEmpty && vs.all enumValOk
+  | .enumLit vs => !vs.isEmpty && vs.all enumScalar      -- an Enum with None admits null, which the runtime treats as absent
   | .enumCls _ names => !names.isEmpty
   | _ => false
 
